@@ -5,7 +5,8 @@ the compiled-pattern cache in compile() / get_compiled_pattern(); no setattr, gl
 a class-level table.  (2) frame clauses of the contracts (VCs): no method writes a field of `self` or of an operand outside
 its `frame`.  (3) the cache is unobservable (cache invariant, C11).  (4) results are functions of operand FIELDS only:
 the executor gives code no access to global mutable state, and set iteration is order-free where it matters (C01:
-__escape; class layer: bounded stand-ins under several hash seeds).  Bounded stand-in B20 exercises random histories."""
+__escape; class layer: __or / __sub and the interval functions are proved for an arbitrary enumeration of every set they
+iterate, plus bounded stand-ins under several hash seeds).  Bounded stand-in B20 exercises random histories."""
 from .. import vcrun, framescan
 from ..common import native, SEED
 from . import _groups as GR, _g5
@@ -25,6 +26,11 @@ def run(rep, tier):
     rep.ob(f"frame scan: {len(r['stores'])} attribute stores, all within the allowed list; no other state-changing construct",
            "discharged" if not r["not_allowed"] and not r["suspicious"] else "failed", "frame-scan", 0, kind="frame")
     funcs = GR.HELPERS + GR.G1 + GR.G2 + GR.G3 + GR.G4A + GR.G4L + _g5.MATCHING + _g5.CACHE + [_g5.P + "replace", _g5.P + "split_by_match"]
+    # the class algebra is where python sets are iterated: __or / __sub and their nested functions are proved over an ARBITRARY
+    # enumeration of those sets (abstract item sets, lists in arbitrary order), i.e. for every hash seed
+    K = "pregex.core.classes.__Class."
+    funcs += [K + "__or", K + "__sub", K + "__or.<locals>.reduce_ranges", K + "__or.<locals>.reduce_chars",
+              K + "__sub.<locals>.subtract_ranges"] + [K + m for m in ("__or__", "__ror__", "__sub__", "__rsub__", "__invert__")]
     vcrun.run_functions(rep, funcs, tier)
     n = 300 if tier == "quick" else 5000
     b = native("run_module", {"module": "pvc.bex_history", "func": "run", "args": {"n": n, "seed": SEED}}, timeout=3600)
